@@ -561,8 +561,15 @@ fn parse_entity_def<'input>(
         b'S' | b'P' => {
             if parse_external_id(s)? {
                 if is_ge {
+                    let has_space = s.starts_with_space();
                     s.skip_spaces();
                     if s.starts_with(b"NDATA") {
+                        if !has_space {
+                            // NDataDecl ::= S 'NDATA' S Name
+                            let pos = s.gen_text_pos();
+                            return Err(Error::InvalidChar2("a whitespace", b'N', pos));
+                        }
+
                         s.advance(5);
                         s.consume_spaces()?;
                         s.skip_name()?;
